@@ -85,7 +85,7 @@ pub fn run(stim: &Value, rec: &Rec) {
                     let tr = if stim["trailers"].is_array() { Some(header_list(&stim["trailers"])) } else { None };
                     let (body, _) = script_body(&stim["chunks_resp"], tr);
                     let resp = http::Response::builder().status(stim["inner_status"].as_u64().unwrap_or(200) as u16)
-                        .header("content-type", "application/grpc").header("x-inner", "1").body(Body::new(body)).unwrap();
+                        .header("content-type", stim["inner_ctype"].as_str().unwrap_or("application/grpc")).header("x-inner", "1").body(Body::new(body)).unwrap();
                     Ok::<_, std::convert::Infallible>(resp)
                 }
             });
